@@ -96,7 +96,7 @@ func (w *World) irProfileInto(fn *ssa.Function, ownPkg string, fields, calls map
 			// an own helper that the other emitter does not have (there it is written in
 			// line): profiled as part of its caller, so that the two shapes compare equal
 			if callee := x.Common().StaticCallee(); callee != nil && callee.Blocks != nil && callee.Pkg != nil && short(callee.Pkg.Pkg.Path()) == ownPkg && callee.Signature.Recv() == nil {
-				if !w.hasSiblingFn(ownPkg, callee.Name()) {
+				if own := n[strings.LastIndex(n, ".")+1:]; !w.hasSiblingFn(ownPkg, own) {
 					w.irProfileInto(callee, ownPkg, fields, calls, seen, depth+1)
 					return
 				}
